@@ -210,8 +210,11 @@ class TwistedEventLoop(EventLoop):
         self._twisted_idle_enabled = True
 
     def _twisted_idle_callback(self) -> None:
-        for callback in self._idle_callbacks.values():
-            callback()
+        for handle in list(self._idle_callbacks):
+            # an earlier callback of this pass may have removed this one
+            callback = self._idle_callbacks.get(handle)
+            if callback is not None:
+                callback()
         self._twisted_idle_enabled = False
 
     def remove_enter_idle(self, handle: int) -> bool:
